@@ -504,6 +504,21 @@ impl Check for ParCheck {
             st.set_insert("nontrivial", vcore::mix(sh, hash_bytes(scn.to_string().as_bytes())));
         }
         let mut v = judge(self.id, &s, &o, st);
+        if o.failure.is_none() && o.hist.live_after > 0 {
+            // threads of the call are still alive although everything else has finished: they
+            // belong to a finished shuttle execution, nothing more can be run in this process
+            let f = features(&s);
+            let mut fv = v.iter().find(|x| x.rule.ends_with("threads_left_behind")).cloned().unwrap_or_else(|| {
+                Violation::new(&format!("{}.threads_left_behind", self.id), format!("{} of {} threads created by the call were still alive after it had returned", o.hist.live_after, o.hist.spawned))
+            });
+            fv.features = f;
+            if self.id == "C08" {
+                vcore::report_fatal(self, scn, &fv);
+            } else {
+                eprintln!("HARNESS-ERROR: the parallel call left {} thread(s) behind (a C08 violation); the {} run cannot continue in this process", o.hist.live_after, self.id);
+                std::process::exit(2);
+            }
+        }
         if !v.is_empty() {
             let f = features(&s);
             for x in v.iter_mut() {
@@ -560,6 +575,11 @@ impl Check for ParCheck {
             }
         }
         v
+    }
+    fn serial_prefix(&self) -> u64 {
+        // a defect that leaves threads of the system under test behind poisons the process: find it
+        // before 16 workers share the damage
+        16
     }
     fn expected_probes(&self) -> Vec<&'static str> {
         match self.id {
